@@ -60,7 +60,7 @@ package providers
 //@   let Gerr = @ValidateGroup#1.2
 //@   let fresh = called(@redeemRefreshToken#1) && Rerr == nil && called(@ValidateGroup#1) && Gerr == nil && @ValidateGroup#1.1
 //@   let unavailable = (called(@redeemRefreshToken#1) && Rerr == ErrAuthProviderUnavailable) || (called(@ValidateGroup#1) && Gerr == ErrAuthProviderUnavailable)
-//@   ensures [C04] ok_is_fresh_or_grace: result.0 ==> result.1 == nil && (fresh || unavailable)
+//@   ensures [C04 C01] ok_is_fresh_or_grace: result.0 ==> result.1 == nil && (fresh || unavailable)
 //@   ensures [C04] denied_has_error: !result.0 ==> result.1 != nil
 //@   ensures [C04] fresh_updates: result.0 && fresh ==> s.AccessToken == @redeemRefreshToken#1.0 && s.Groups == @ValidateGroup#1.0 && s.GracePeriodStart == ZERO && s.RefreshDeadline == truncSec(clock + @redeemRefreshToken#1.1)
 //@   ensures [C04] checked_this_user: called(@ValidateGroup#1) ==> arg(@ValidateGroup#1, 1) == s.Email && arg(@ValidateGroup#1, 2) == allowedGroups && arg(@ValidateGroup#1, 3) == @redeemRefreshToken#1.0
@@ -71,6 +71,8 @@ package providers
 //@   ensures [C05] grace_window: result.0 && !fresh ==> old(clock) < s.GracePeriodStart + p.GracePeriodTTL
 //@   ensures [C05] grace_clock_starts_once: result.0 && !fresh ==> (old(s.GracePeriodStart) == ZERO ? (old(clock) <= s.GracePeriodStart && s.GracePeriodStart <= clock) : s.GracePeriodStart == old(s.GracePeriodStart))
 //@   ensures [C05] grace_keeps_token: result.0 && !fresh ==> s.AccessToken == old(s.AccessToken) && s.Groups == old(s.Groups)
+// a grace answer is good for one validation interval: the next request after that re-tests the grace window
+//@   ensures [C05] grace_is_retested_within_the_validation_interval: result.0 && !fresh ==> s.RefreshDeadline == truncSec(clock + p.SessionValidTTL)
 
 //@ func (p *SSOProvider) ValidateSessionState(s *sessions.SessionState, allowedGroups []string) bool
 //@   modifies s.ValidDeadline, s.Groups, s.GracePeriodStart, clock
@@ -79,16 +81,17 @@ package providers
 //@   let Gerr = @ValidateGroup#1.2
 //@   let fresh = answered && status == 200 && called(@ValidateGroup#1) && Gerr == nil && @ValidateGroup#1.1
 //@   let unavailable = (answered && (status == 429 || status == 503)) || (called(@ValidateGroup#1) && Gerr == ErrAuthProviderUnavailable)
-//@   ensures [C04] ok_is_fresh_or_grace: result ==> fresh || unavailable
+//@   ensures [C04 C01] ok_is_fresh_or_grace: result ==> fresh || unavailable
 //@   ensures [C04] fresh_updates: result && fresh ==> s.Groups == @ValidateGroup#1.0 && s.GracePeriodStart == ZERO && s.ValidDeadline == truncSec(clock + p.SessionValidTTL)
 //@   ensures [C04] checked_this_user: called(@ValidateGroup#1) ==> arg(@ValidateGroup#1, 1) == s.Email && arg(@ValidateGroup#1, 2) == allowedGroups && arg(@ValidateGroup#1, 3) == s.AccessToken
-//@   ensures [C04] token_rejected_refused: answered && status != 200 && status != 429 && status != 503 ==> !result
+//@   ensures [C04 C01] token_rejected_refused: answered && status != 200 && status != 429 && status != 503 ==> !result
 //@   ensures [C04] transport_error_refused: called(@Do#1) && @Do#1.1 != nil ==> !result
 //@   ensures [C04] group_removed_refused: called(@ValidateGroup#1) && Gerr == nil && !@ValidateGroup#1.1 ==> !result
 //@   ensures [C04] group_error_refused: called(@ValidateGroup#1) && Gerr != nil && Gerr != ErrAuthProviderUnavailable ==> !result
 //@   ensures [C05] grace_window: result && !fresh ==> old(clock) < s.GracePeriodStart + p.GracePeriodTTL
 //@   ensures [C05] grace_clock_starts_once: result && !fresh ==> (old(s.GracePeriodStart) == ZERO ? (old(clock) <= s.GracePeriodStart && s.GracePeriodStart <= clock) : s.GracePeriodStart == old(s.GracePeriodStart))
 //@   ensures [C05] grace_keeps_groups: result && !fresh ==> s.Groups == old(s.Groups)
+//@   ensures [C05] grace_is_retested_within_the_validation_interval: result && !fresh ==> s.ValidDeadline == truncSec(clock + p.SessionValidTTL)
 
 // Redeem is the only constructor of a proxy session: the lifetime bound is fixed here, at login.
 //@ func (p *SSOProvider) Redeem(redirectURL string, code string) (*sessions.SessionState, error)
